@@ -87,7 +87,7 @@ def r2(ctx, fs):
     env = LocalEnv(f)
     env.param_roles(['left', 'right'])
     env.local_role('intersection', lambda n, i: 'unordered_set<smt::var_value *>' in (n.get('t') or ''))
-    env.local_role('eq_lit', lambda n, i: n.get('t') in ('const smt::lit', 'smt::lit') and i is not None)
+    env.local_role('eq_lit', lambda n, i: n.get('t') in ('const smt::lit', 'smt::lit') and i is not None and 'ov_theory::assigns' not in show(i))   # not a copy of a value literal
     env.local_role('s_expr', lambda n, i: n.get('t') in ('const std::basic_string<char>', 'std::basic_string<char>'))
     env.local_role('at_expr', lambda n, i: isinstance(i, tuple) and i[0] == 'mcall' and i[1].endswith('::find') and i[2] == OV + 'exprs')
     env2, cl = posted(fs, f, env=env)
